@@ -23,13 +23,21 @@
        bisimilarity; proofs/RtTcSound.v, RtTcSoundTop.v, RtTcBisim.v, RtTheoremsTc.v); premises left,
        prog_syn_ok p, raw_ok p (computable; theorems for parsed programs: the _parsed_ versions have
        no premise but acceptance and Topo) and Topo on the reachable configurations.
-   NOT proved: the non-polarized mode; the premise topo_runs / topo_reachable (the latter is false
+     * C02_progress_run_parsed / C02_progress_sync_run_parsed : the two statements for parsed, accepted,
+       closed programs with NO further premise (Topo along the runs: proofs/DeterminismAll.v; its
+       source test is a theorem for parsed accepted programs: proofs/SrcAll.v).
+     * C02_progress_np_partial / C02_progress_np_run_parsed : the NON-POLARIZED mode (proofs/RtProgressNP.v):
+       in a typed, Topo, quiescent configuration with empty buffers no forward is left (its control
+       message would be accepted: induction on the rank), hence the configuration is quiescent in the
+       synchronous mode too and the synchronous statement applies; for the end of every quiescent run of
+       a parsed, accepted, closed program no premise is left.
+   (In the statements that keep it) the premise topo_runs / topo_reachable (the latter is false
    for programs whose top-level processes use each other cyclically: finding F29, fixed in /repo). *)
 From stdpp Require Import gmap strings.
 Require Import Grits.Base Grits.ModeDefs Grits.Modes Grits.STypes Grits.Forms Grits.Subst Grits.TcDeps Grits.Expand
                Grits.Tc Grits.TcTop Grits.Runtime Grits.spec.RtTyping Grits.spec.Topo
                Grits.proofs.RtEffect Grits.proofs.RtSafety Grits.proofs.RtInit Grits.proofs.RtProgress
-               Grits.proofs.RtTheorems Grits.spec.SynOk Grits.proofs.RtTcSyn Grits.proofs.RtTcBisim Grits.proofs.RtTheoremsTc.
+               Grits.proofs.RtTheorems Grits.spec.SynOk Grits.proofs.RtTcSyn Grits.proofs.RtTcBisim Grits.proofs.RtTheoremsTc Grits.proofs.RtProgressNP Grits.proofs.RtTheoremsFinal.
 
 Theorem C02_progress_partial : forall D F teq, teq_laws D teq -> funs_typed D F teq ->
   forall Δ c,
@@ -143,6 +151,54 @@ Theorem C02_progress_sync_run_parsed_partial : forall txt p p',
                 exists o, obj_in c o /\ k ∈ refs o) -> procs c = ∅).
 Proof. exact progress_sync_run_parsed_partial. Qed.
 
+(* no premise beyond parsed / accepted / closed *)
+Theorem C02_progress_run_parsed : forall txt p p',
+  parse_string txt = POk p -> typecheck p = Accept p' -> in_fragment p' ->
+  forall fuel pick c,
+    exec_run fuel pick Async (p_types p') (p_funs p') (init_config p') = RQuiescent c ->
+    exists Δ : gmap cid sty,
+    (forall self pr, procs c !! self = Some pr ->
+       exists k st T, action_of Async (p_types p') pr = ARecv k /\ own_chan pr k /\
+                      Δ !! k = Some T /\ pol_of_ty (p_types p') T Neg /\
+                      chans c !! k = Some st /\ ch_buf st = None /\ ch_closed st = false) /\
+    (forall k st m, chans c !! k = Some st -> ch_buf st = Some m -> is_pos_rule (m_rule m) = true) /\
+    ((forall k, alive c k -> exists o, obj_in c o /\ k ∈ refs o) -> procs c = ∅).
+Proof. exact progress_run_parsed. Qed.
+
+Theorem C02_progress_sync_run_parsed : forall txt p p',
+  parse_string txt = POk p -> typecheck p = Accept p' -> in_fragment p' ->
+  forall fuel pick c,
+    exec_run fuel pick Sync (p_types p') (p_funs p') (init_config p') = RQuiescent c ->
+    (forall self pr, procs c !! self = Some pr ->
+       exists k, own_chan pr k /\
+         (action_of Sync (p_types p') pr = ARecv k \/
+          exists m, action_of Sync (p_types p') pr = ASend k m /\ is_pos_rule (m_rule m) = true)) /\
+    ((forall k, (exists self pr, procs c !! self = Some pr /\ k ∈ cids_of (pr_provs pr)) ->
+                exists o, obj_in c o /\ k ∈ refs o) -> procs c = ∅).
+Proof. exact progress_sync_run_parsed. Qed.
+
+(* the non-polarized mode *)
+Theorem C02_progress_np_partial : forall D F teq, teq_laws D teq -> funs_typed D F teq ->
+  forall Δ c, cfg_typed D F teq Δ c -> Topo c -> buffers_empty c -> quiescent NP D F c ->
+    (forall self p, procs c !! self = Some p ->
+       exists k, own_chan p k /\
+         (action_of NP D p = ARecv k \/ exists m, action_of NP D p = ASend k m /\ is_pos_rule (m_rule m) = true)) /\
+    ((forall k, (exists self p, procs c !! self = Some p /\ k ∈ cids_of (pr_provs p)) ->
+                exists o, obj_in c o /\ k ∈ refs o) -> procs c = ∅).
+Proof. exact progress_np_partial. Qed.
+
+Theorem C02_progress_np_run_parsed : forall txt p p',
+  parse_string txt = POk p -> typecheck p = Accept p' -> in_fragment p' ->
+  forall fuel pick c,
+    exec_run fuel pick NP (p_types p') (p_funs p') (init_config p') = RQuiescent c ->
+    (forall self pr, procs c !! self = Some pr ->
+       exists k, own_chan pr k /\
+         (action_of NP (p_types p') pr = ARecv k \/
+          exists m, action_of NP (p_types p') pr = ASend k m /\ is_pos_rule (m_rule m) = true)) /\
+    ((forall k, (exists self pr, procs c !! self = Some pr /\ k ∈ cids_of (pr_provs pr)) ->
+                exists o, obj_in c o /\ k ∈ refs o) -> procs c = ∅).
+Proof. exact progress_np_run_parsed. Qed.
+
 (* non-vacuity: the example program of the fragment ends in quiescence with no process left
    (synchronous: the top-level provider stays blocked offering its result on a client-less channel) *)
 Example C02_example_runs :
@@ -163,4 +219,8 @@ Print Assumptions C02_progress_run_tc_partial.
 Print Assumptions C02_progress_sync_run_tc_partial.
 Print Assumptions C02_progress_run_parsed_partial.
 Print Assumptions C02_progress_sync_run_parsed_partial.
+Print Assumptions C02_progress_run_parsed.
+Print Assumptions C02_progress_sync_run_parsed.
+Print Assumptions C02_progress_np_partial.
+Print Assumptions C02_progress_np_run_parsed.
 Print Assumptions C02_example_runs.
